@@ -106,7 +106,7 @@ int main(int argc, char **argv) {
     uint32_t hdr = 0;
     if (bin.size() >= 4) memcpy(&hdr, bin.data(), 4);
     size_t imgEnd = std::min(bin.size(), (size_t)4 + (size_t)hdr * 4);
-    fprintf(g_out, ",\"hdr\":%d,\"filelen\":%zu,\"img\":[", (int)hdr, bin.size());
+    fprintf(g_out, ",\"wrote\":%s,\"hdr\":%d,\"filelen\":%zu,\"img\":[", access(binpath.c_str(), F_OK) == 0 ? "true" : "false", (int)hdr, bin.size());
     for (size_t i = 4; i < imgEnd; i++) fprintf(g_out, "%s%d", i > 4 ? "," : "", (int)(unsigned char)bin[i]);
     // debug tables as raw bytes (parsed on the spec side of C15)
     fprintf(g_out, "],\"dbg\":[");
